@@ -144,6 +144,59 @@ class Unord:
                     loops[s] |= body
         return loops
 
+    INJECTIVE_CALLS = {"encode_vec", "encode", "clone", "to_vec", "to_owned", "as_ref", "as_slice", "deref", "borrow", "into", "from", "to_be_bytes",
+                       "to_le_bytes", "to_string", "as_bytes", "as_str", "to_bytes", "into_inner", "cloned", "copied", "Reverse"}
+
+    def _injective_in(self, t, pnames):
+        """term t determines the element bound to one of the closure parameters pnames: the element itself or its `.0` (the key of
+        a map entry - unique in a map), through conversions that lose nothing; a tuple is as fine as its finest component"""
+        k = t[0]
+        if k in ("ref", "deref"):
+            return self._injective_in(t[1], pnames)
+        if k == "param":
+            return isinstance(t[1], int) and t[1] >= 2          # local 1 of a closure body is its environment
+        if k == "field":
+            return t[2] in (".0",) and self._injective_in(t[1], pnames) and t[1][0] != "field"
+        if k == "call":
+            return t[1].split("::")[-1].split("<")[0] in self.INJECTIVE_CALLS and bool(t[2]) and self._injective_in(t[2][0], pnames)
+        if k == "agg":
+            return any(self._injective_in(a, pnames) for a in t[2])
+        return False
+
+    def sort_is_total(self, fn, c):
+        """the sort call c orders its elements by something that differs for any two of them: no key (Ord of the elements), a key
+        closure whose result determines the element (or the entry's key), or a comparator `cmp` of two such projections, possibly
+        refined by `then*`.  Anything else is not accepted as removing hash order"""
+        from terms import closures_in_term
+        if len(c.args) < 2:
+            return True
+        cids = closures_in_term(origin(fn, c.args[1]))
+        if not cids:
+            return False
+        for cid in cids:
+            cl = self.F.fns.get(cid)
+            if cl is None:
+                return False
+            pn = None
+            t = origin(cl, {"l": 0, "k": "copy"})
+            alts = t[1] if t[0] == "phi" else [t]
+            for a in alts:
+                if not self._total_term(a, pn):
+                    return False
+        return True
+
+    def _total_term(self, t, pn):
+        if t[0] == "call":
+            last = t[1].split("::")[-1].split("<")[0]
+            if last in ("cmp", "partial_cmp", "total_cmp") and len(t[2]) == 2:
+                return self._injective_in(t[2][0], pn) and self._injective_in(t[2][1], pn)
+            if last in ("then", "then_with", "reverse", "unwrap", "unwrap_or", "expect") and t[2]:
+                from terms import closures_in_term
+                if self._total_term(t[2][0], pn):
+                    return True
+                return any(self._total_term(x, pn) for x in t[2][1:])
+        return self._injective_in(t, pn)
+
     def root_local(self, fn, op, depth=0):
         """root local a reference-ish operand points to (through &, &mut, deref/deref_mut/as_mut_slice calls)"""
         if "l" not in op or depth > 12:
@@ -302,7 +355,8 @@ class Unord:
                     continue
                 if m in SORTS and c.args:
                     r = self.root_local(fn, c.args[0])
-                    if r is not None and bi not in sorts[r]:
+                    # a sort removes hash order only if its key separates any two elements (ties keep their incoming order)
+                    if r is not None and bi not in sorts[r] and self.sort_is_total(fn, c):
                         sorts[r].append(bi)
                         changed = True
                     continue
